@@ -24,6 +24,8 @@ def load_event(s):
     e.failure = bool(data['failure'])
     e.notify = bool(data['notify'])
     e.channels = tuple(data['channels'])
+    if not all(isinstance(c, str) for c in e.channels):
+        raise TypeError('channels must be strings')
 
     for k, v in dict(data['meta']).items():
         if k.startswith('__') or k in META_EXCLUDE:
